@@ -194,6 +194,9 @@ def run_sessions(c, codecs, pids, n_random, n_exh, extra_reqs=(), big=False):
                 setup, calls, fin_, left = a.HL
                 nlib = sum(1 for ch in (a.E or "") if ch in "Ll")      # source entries holding a library-allocated block (the application's to free)
                 want = "R HL%d;%s;%s;%d=%d" % (setup, ",".join(map(str, calls)), "-" if fin_ is None else str(fin_), left, nlib)
+                if reqs[i].codec in (sessions.LDPC, sessions.P2D):
+                    # who owns each source entry: the application's buffer (received, or returned by its callback) or a library block
+                    want += ";" + "".join("A" if ch in "RCrc" else "L" if ch in "Ll" else ch for ch in (a.E or ""))
                 got = ml[j].strip() if j < len(ml) else "?"
                 if got != want:
                     c.proof_failed.append({"correspondence": "dec/heap-ledger", "request": lines[i][:400], "c": want[:800], "model": got[:800], "model_request": hp_req[j][:3000],
